@@ -20,8 +20,9 @@ Core Lean only. -/
 namespace ScriggoV.LexCtx
 open ScriggoV ScriggoV.Lexer ScriggoV.Gen.LexTables ScriggoV.HtmlTok
 
-/-- the lexer state in which `scanTemplateBody` enters the main loop for an HTML file (no shebang line) -/
-def st0 : St := initSt FormatHTML ContextHTML
+/-- the lexer state in which `scanTemplateBody` enters the main loop for an HTML file (no shebang line):
+the initial state after `l.base = l.ctx` -/
+def st0 : St := { initSt FormatHTML ContextHTML with lbase := (initSt FormatHTML ContextHTML).ctx }
 
 /-- the loop variables in which `scanTemplateBody` enters the main loop -/
 def lp0 : Loop :=
@@ -34,10 +35,10 @@ delimiter starts, or at a `{{` that stands at a stable point of the reference ru
 inductive Track (E : Env) : St → Loop → Prop
   | init : Track E st0 lp0
   | plain {st lp st' lp'} : Track E st lp → lp.p < srcLen E st → delimAt E.text (st.base + lp.p) = false →
-      step E FHtml st lp = .ok (.cont st' lp') → Track E st' lp'
+      step E st lp = .ok (.cont st' lp') → Track E st' lp'
   | neutral {st lp st' lp'} : Track E st lp → E.text[st.base + lp.p]? = some 0x7b →
       E.text[st.base + lp.p + 1]? = some 0x7b → stable (rs E.text (st.base + lp.p)) →
-      step E FHtml st lp = .ok (.cont st' lp') →
+      step E st lp = .ok (.cont st' lp') →
       NeutralShow E.text (st.base + lp.p) (st'.base + lp'.p) → Track E st' lp'
 
 theorem delimAt_hole {text : Bytes} {lo n : Nat} (H : Hole text lo n) : delimAt text n = true := by
@@ -58,21 +59,21 @@ theorem Hole.of_show {text : Bytes} {a : Nat} (h0 : text[a]? = some 0x7b) (h1 : 
 
 /-- the invariants carried along `Track` -/
 theorem track_all {E : Env} (hE : E.noParseShow = false) {st : St} {lp : Loop} (h : Track E st lp) :
-    LoopInv E st lp ∧ htmlFamily st.ctx ∧ htmlFamily st.tagCtx ∧
+    LoopInv E st lp ∧ htmlFamily st.ctx ∧ htmlFamily st.tagCtx ∧ st.lbase = ContextHTML ∧ Bal st ∧
     ∀ n, st.base + lp.p ≤ n → Hole E.text n n → R E.text (proj st lp) (rs E.text (st.base + lp.p)) := by
   induction h with
   | init =>
-    refine ⟨⟨Nat.zero_le _, Nat.zero_le _, Nat.le_refl _⟩, by decide, by decide, ?_⟩
+    refine ⟨⟨Nat.zero_le _, Nat.zero_le _, Nat.le_refl _⟩, by decide, by decide, rfl, rfl, ?_⟩
     intro n _ _
     exact R_init _
   | @plain st lp st' lp' _ hlt hd hs ih =>
-    obtain ⟨hI, hf, hft, hR⟩ := ih
-    obtain ⟨st1, lp1, hs1, hp, hI1, _, hmu, hf1, hft1, _⟩ := step_refines hI hlt hf hft hd
+    obtain ⟨hI, hf, hft, hlb, hB, hR⟩ := ih
+    obtain ⟨st1, lp1, hs1, hp, hI1, _, hmu, hf1, hft1, _, hlb1, hB1⟩ := step_refines hI hlt hf hft hd hlb hB
     rw [hs] at hs1
     injection hs1 with hs1
     injection hs1 with e1 e2
     subst e1 e2
-    refine ⟨hI1, hf1, hft1, ?_⟩
+    refine ⟨hI1, hf1, hft1, hlb1, hB1, ?_⟩
     intro n hn H
     have hmono : st.base + lp.p ≤ st'.base + lp'.p := by
       have h1 := hI1.pos_le
@@ -91,13 +92,13 @@ theorem track_all {E : Env} (hE : E.noParseShow = false) {st : St} {lp : Loop} (
     rw [← hp] at h2
     exact h2
   | @neutral st lp st' lp' _ h0 h1 hst hs hN ih =>
-    obtain ⟨hI, hf, hft, hR⟩ := ih
-    obtain ⟨o, tok, older, newer, hso, hg, _, _, _, _, _, hcont⟩ := show_step hI hf hft hE h0 h1
+    obtain ⟨hI, hf, hft, hlb, hB, hR⟩ := ih
+    obtain ⟨o, tok, older, newer, hso, hg, _, _, _, _, _, hcont⟩ := show_step hI hf hft hE h0 h1 hB
     rw [hs] at hso
     injection hso with hso
     subst hso
-    obtain ⟨hp, hp0, hf1, hft1, _⟩ := hcont st' lp' rfl
-    refine ⟨hg.1, hf1, hft1, ?_⟩
+    obtain ⟨hp, hp0, hf1, hft1, hlb1, _⟩ := hcont st' lp' rfl
+    refine ⟨hg.1, hf1, hft1, hlb1.trans hlb, hg.2.1.bal hB, ?_⟩
     intro n hn H
     have hae : st.base + lp.p + 4 ≤ st'.base + lp'.p := hN.1
     have hgood : ∀ i, i ≤ st.base + lp.p → rs E.text i ≠ .bad := fun i hi => H.good i (by omega)
@@ -117,7 +118,7 @@ theorem track_agree {E : Env} {st : St} {lp : Loop} (hE : E.noParseShow = false)
     {n : Nat} (hn : st.base + lp.p ≤ n) (H : Hole E.text n n) :
     R E.text (proj st lp) (rs E.text (st.base + lp.p)) ∧
       LoopInv E st lp ∧ htmlFamily st.ctx ∧ htmlFamily st.tagCtx := by
-  obtain ⟨h1, h2, h3, h4⟩ := track_all hE h
+  obtain ⟨h1, h2, h3, _, _, h4⟩ := track_all hE h
   exact ⟨h4 n hn H, h1, h2, h3⟩
 
 /-- **Every hole, the context.** Whenever the main loop of the full model, having passed only
@@ -142,12 +143,12 @@ theorem track_show_tok {E : Env} {st : St} {lp : Loop} (hE : E.noParseShow = fal
     (hgood : ∀ i, i ≤ st.base + lp.p → rs E.text i ≠ .bad)
     (h0 : E.text[st.base + lp.p]? = some 0x7b) (h1 : E.text[st.base + lp.p + 1]? = some 0x7b)
     {c : HtmlTok.Ctx} {u : Bool} (ha : abs containsURL (rs E.text (st.base + lp.p)) = some (c, u)) :
-    ∃ (o : Out) (tok : Tok) (older newer : List Tok), step E FHtml st lp = .ok o ∧ OutGood E st lp o ∧
+    ∃ (o : Out) (tok : Tok) (older newer : List Tok), step E st lp = .ok o ∧ OutGood E st lp o ∧
       Flushed st lp older ∧ (outSt o).toks = newer ++ tok :: older ∧ tok.typ = tokenLeftBraces ∧
       tok.ctx = ctxNat c ∧ tok.start = ((st.base + lp.p : Nat) : Int) ∧ lp.emittedURL = u := by
-  obtain ⟨hI, hf, hft, _⟩ := track_all hE h
+  obtain ⟨hI, hf, hft, _, hB, _⟩ := track_all hE h
   obtain ⟨hc, hu⟩ := track_show_ctx hE h hgood h0 ⟨_, h1, Or.inl rfl⟩ ha
-  obtain ⟨o, tok, older, newer, hso, hg, hfl, htoks, hty, hcx, hstt, _⟩ := show_step hI hf hft hE h0 h1
+  obtain ⟨o, tok, older, newer, hso, hg, hfl, htoks, hty, hcx, hstt, _⟩ := show_step hI hf hft hE h0 h1 hB
   exact ⟨o, tok, older, newer, hso, hg, hfl, htoks, hty, by rw [hcx, hc], hstt, hu⟩
 
 end ScriggoV.LexCtx
